@@ -24,6 +24,8 @@ TraceReset == /\ l <= Len(Trace) /\ Line.ev = "reset"
               /\ it' = [t \in Threads |-> 0] /\ ot' = [t \in Threads |-> 0]
               /\ fb' = [t \in Threads |-> 0] /\ buf' = [t \in Threads |-> 0]
               /\ held' = [t \in Threads |-> {}] /\ ops' = [t \in Threads |-> 0]
+              /\ ca' = [t \in Threads |-> 0] /\ cnext' = [t \in Threads |-> -1] /\ nlinks' = [t \in Threads |-> 0]
+              /\ mnext' = [s \in Slots |-> -1]
               /\ stale' = [t \in Threads |-> FALSE] /\ aba' = FALSE /\ foreign' = FALSE
               /\ Matches(Line.st)
               /\ l' = l + 1
@@ -33,6 +35,8 @@ TraceStep == /\ l <= Len(Trace) /\ Line.ev = "step"
                   /\ t \in Threads
                   /\ CASE Line.k = 1 -> PopStart(t)
                        [] Line.k = 2 -> PushStart(t) /\ buf'[t] = Line.b
+                       [] Line.k = 3 -> LinkStart(t) /\ buf'[t] = Line.b /\ mnext'[Line.b] = Line.b2
+                       [] Line.k = 4 -> ChainStart(t) /\ ca'[t] = Line.b
                        [] OTHER -> pc[t] # "idle" /\ Step(t)
                   /\ Matches(Line.st)
              /\ l' = l + 1
